@@ -302,7 +302,23 @@ func (p *parser) parsePermissionExpressions(finalToken itemType, depth int) *ast
 			expressionNestingMaxDepth)
 		return nil
 	}
-	var root *ast.SubjectSetRewrite
+	var (
+		// root is the whole expression parsed so far, tail is the node that
+		// receives the next operand. They differ once an "&&" follows an "||":
+		// "&&" binds tighter, so it takes the last operand of the "||" instead
+		// of the expression as a whole.
+		root, tail *ast.SubjectSetRewrite
+		// tailIsOr is true while tail is a node created for an "||" operator.
+		tailIsOr bool
+	)
+	add := func(child ast.Child) {
+		if root == nil {
+			root = child.AsRewrite()
+			tail = root
+			return
+		}
+		tail.Children = append(tail.Children, child)
+	}
 
 	// We only expect an expression in the beginning and after a binary
 	// operator.
@@ -320,7 +336,7 @@ func (p *parser) parsePermissionExpressions(finalToken itemType, depth int) *ast
 			if child == nil {
 				return nil
 			}
-			root = addChild(root, child)
+			add(child)
 			expectExpression = false
 
 		case item.Typ == finalToken:
@@ -340,11 +356,26 @@ func (p *parser) parsePermissionExpressions(finalToken itemType, depth int) *ast
 			if root == nil {
 				return nil
 			}
-			newRoot := &ast.SubjectSetRewrite{
-				Operation: setOperation(item.Typ),
-				Children:  []ast.Child{root},
+			switch op := setOperation(item.Typ); {
+			case op == ast.OperatorAnd && tailIsOr:
+				// a || b && ...: the conjunction starts at b.
+				last := len(tail.Children) - 1
+				and := &ast.SubjectSetRewrite{
+					Operation: ast.OperatorAnd,
+					Children:  []ast.Child{tail.Children[last]},
+				}
+				tail.Children[last] = and
+				tail, tailIsOr = and, false
+			case op == ast.OperatorAnd && tail != root:
+				// a || b && c && ...: still inside that conjunction.
+			default:
+				newRoot := &ast.SubjectSetRewrite{
+					Operation: op,
+					Children:  []ast.Child{root},
+				}
+				root, tail = newRoot, newRoot
+				tailIsOr = op == ast.OperatorOr
 			}
-			root = newRoot
 			expectExpression = true
 
 		// A "not" creates an AST node where the children are either a
@@ -355,7 +386,7 @@ func (p *parser) parsePermissionExpressions(finalToken itemType, depth int) *ast
 			if child == nil {
 				return nil
 			}
-			root = addChild(root, child)
+			add(child)
 			expectExpression = false
 
 		default:
@@ -369,7 +400,7 @@ func (p *parser) parsePermissionExpressions(finalToken itemType, depth int) *ast
 			if child == nil {
 				return nil
 			}
-			root = addChild(root, child)
+			add(child)
 			expectExpression = true
 		}
 	}
@@ -395,15 +426,6 @@ func (p *parser) parseNotExpression(depth int) ast.Child {
 		return nil
 	}
 	return &ast.InvertResult{Child: child}
-}
-
-func addChild(root *ast.SubjectSetRewrite, child ast.Child) *ast.SubjectSetRewrite {
-	if root == nil {
-		return child.AsRewrite()
-	} else {
-		root.Children = append(root.Children, child)
-		return root
-	}
 }
 
 func setOperation(typ itemType) ast.Operator {
